@@ -169,52 +169,58 @@ def run(db, cx):
                   "restored: %s" % sorted(written), short(ff.loc),
                   why="a member that is not read back keeps its default instead of the stored value")
 
-    # --- R3b: `field != D` omission mirrored by default D
-    fv = tos.get("VolumeInput", [None])[0]
-    rv = froms.get("VolumeInput", [None])[0]
-    cx.require(fv is not None and rv is not None, "VolumeInput to_json/from_json not found")
-    for key, fld in (("flags", "flags"), ("zorder", "zorder"), ("bbox", "bbox")):
-        # writer condition
-        wc = None
-        for (k, how, cond, pos, ev) in key_events(fv):
-            if k != key:
+    # --- R3b: `field != D` omission mirrored by default D (keys discovered from the writer)
+    n3 = 0
+    for rec in pairs:
+        if rec not in tos or rec not in froms:
+            continue
+        fv, rv = tos[rec][0], froms[rec][0]
+        for (key, how, cond, pos, ev) in key_events(fv):
+            if how not in ("index", "pair") or not cond:
                 continue
-            for br in fv.branch_blocks(lambda c, _b: c.get("op") == "!=" and
-                                       "F:" + C + "VolumeInput::" + fld in c.get("lrefs", [])):
+            wc = None
+            fld = None
+            for br in fv.branch_blocks(lambda c, _b: c.get("op") == "!=" and any(
+                    x.startswith("F:" + C + rec + "::") for x in c.get("lrefs", []))):
                 if fv.guarded_by_edge(pos, br, fv.cond_polarity_edge(br, True)):
-                    wc = fv.blocks[br]["cond"].get("r", "").replace("celeritas::", "")
-        # reader default
-        rd = None
-        src = rv
-        if key == "bbox":
-            h = [h for h in helpers.values()]
-            cx.require(h, "get_bbox helper not found")
-            src = h[0]
-        for (k, how, cond, pos, ev) in key_events(src):
-            if k != key or how != "find":
+                    c = fv.blocks[br]["cond"]
+                    fl = [x for x in c.get("lrefs", []) if x.startswith("F:" + C + rec + "::")]
+                    if len(fl) == 1 and c.get("l", "").replace("value.", "") == fl[0].split("::")[-1]:
+                        wc = c.get("r", "").replace("celeritas::", "")
+                        fld = fl[0].split("::")[-1]
+            if wc is None:
                 continue
-            for br in src.branch_blocks(lambda c, _b: c.get("op") in ("!=", "==") and "iter" in
-                                        c.get("lrefs", []) + c.get("refs", [])):
-                if not src.dominates(pos, (br, 10 ** 6)):
-                    continue
-                c = src.blocks[br]["cond"]
-                absent = src.blocks[br]["succ"][src.cond_polarity_edge(br, c["op"] == "==")]
-                if absent is None:
-                    continue
-                reg = src.reach([absent]) - src.reach(
-                    [x for x in src.blocks[br]["succ"] if x is not None and x != absent])
-                for b in [absent] + sorted(reg):
-                    for e in src.blocks[b]["ev"]:
-                        if e["e"] == "write" and path_leaf(e.get("path")) == C + "VolumeInput::" + fld:
-                            rd = rd or e.get("rhs", "").replace("celeritas::", "")
-                        if e["e"] == "return" and key == "bbox":
-                            rd = rd or e.get("t", "").replace("celeritas::", "")
-        norm = lambda t: re.sub(r"\s|BoundingBox<>::|BBox::", "", t or "")
-        ok = wc is not None and rd is not None and norm(wc) == norm(rd)
-        cx.ob("C19.3-default-mirrors-omission", "VolumeInput.%s: writer omits when == %s, reader "
-              "defaults to %s" % (fld, wc, rd), ok, "", short(fv.loc),
-              why="if the default differs from the omission value, every volume with the common "
-                  "value comes back changed")
+            n3 += 1
+            rd = None
+            srcs = [rv] + [h for h in helpers.values()
+                           if any(e["callee"] == h.name for (_b, _i, e) in rv.events("call"))]
+            for src in srcs:
+                for (k, how2, cond2, pos2, ev2) in key_events(src):
+                    if k != key or how2 != "find":
+                        continue
+                    for br in src.branch_blocks(lambda c, _b: c.get("op") in ("!=", "==") and "iter" in
+                                                c.get("lrefs", []) + c.get("refs", [])):
+                        if not src.dominates(pos2, (br, 10 ** 6)):
+                            continue
+                        c = src.blocks[br]["cond"]
+                        absent = src.blocks[br]["succ"][src.cond_polarity_edge(br, c["op"] == "==")]
+                        if absent is None:
+                            continue
+                        reg = src.reach([absent]) - src.reach(
+                            [x for x in src.blocks[br]["succ"] if x is not None and x != absent])
+                        for b in [absent] + sorted(reg):
+                            for e in src.blocks[b]["ev"]:
+                                if e["e"] == "write" and path_leaf(e.get("path")) == C + rec + "::" + fld:
+                                    rd = rd or e.get("rhs", "").replace("celeritas::", "")
+                                if e["e"] == "return" and src is not rv:
+                                    rd = rd or e.get("t", "").replace("celeritas::", "")
+            norm = lambda t: re.sub(r"\s|BoundingBox<>::|BBox::", "", t or "")
+            ok = rd is not None and norm(wc) == norm(rd)
+            cx.ob("C19.3-default-mirrors-omission", "%s.%s: writer omits when == %s, reader defaults "
+                  "to %s" % (rec, fld, wc, rd), ok, "key \"%s\"" % key, short(ev["loc"]),
+                  why="if the default differs from the omission value, every object with the common "
+                      "value comes back changed")
+    cx.floor("`field != default` omissions", n3, 3)
 
     # --- R4 tables: ZOrder char <-> enum
     en = db.enums.get(C + "ZOrder")
